@@ -8,7 +8,11 @@ documented cross-option rules and of the canonical answers form (mcv/refs/c20_mo
   * every unknown key, every omitted required option, every documented default
   * bounded grids over every cross-option rule (violated and satisfied)
   * every documented answers format
-  * positional (non-dictionary) configurations, dictionary-beats-keywords, registered defaults
+  * positional (non-dictionary) configurations, dictionary-beats-keywords (also an EMPTY dictionary), registered defaults
+  * registered defaults along the class chain (intermediate levels, precedence, stacking, isolation, call histories)
+  * ordered pairs of constructions of the math graders (state left behind by an earlier, possibly failed, construction)
+  * the author's own configuration objects: unchanged by a construction, not aliased by obj.config, usable a second time
+  * author-defined classes built on the library's graders wherever a grader is expected
   * (thorough) every pair of options with the full pools
 
 Each case constructs the REAL class in keyword form and in dictionary form and judges:
@@ -41,6 +45,11 @@ ASSUMPTIONS = [
     'the wording of error messages and the exception subclass are free: any ConfigError or voluptuous Error counts as rejection',
     'scipy is absent: IntegralGrader, OrthogonalMatrices and UnitaryMatrices are only constructed, never used',
     'object equality: the library == first; structural comparison (lists != tuples, True != 1) for stored values',
+    'registered defaults: "higher level classes" in plugins/defaults_sample.py is read as "more derived classes" (its own '
+    'example registers debug on StringGrader); registering an option on a level that does not define it is not exercised',
+    'an empty tuple of expected answers, an empty or (IntervalGrader) multi-character delimiter, the tolerance "nan%", '
+    'IntervalGrader({}, **keywords) and registered defaults that a constructor reads before they are applied '
+    '(MatrixGrader entry_partial_credit, IntervalGrader subgrader) fail on the unchanged library: family pending_findings, skipped',
 ]
 
 
@@ -119,10 +128,33 @@ def check_stored(spec, cfg, name, stored, expect, supplied=None):
     return M.first_diff(stored, expect, "config[%r]" % name)
 
 
-def judge(spec, chosen, detail=False):
+def containers(x, acc=None, depth=0):
+    """{id: object} of every list / dictionary reachable through lists, tuples and dictionaries (not through library objects)"""
+    acc = {} if acc is None else acc
+    if depth > 12:
+        return acc
+    if isinstance(x, (list, dict)):
+        if id(x) in acc:
+            return acc
+        acc[id(x)] = x
+    if isinstance(x, dict):
+        for v in x.values():
+            containers(v, acc, depth + 1)
+    elif isinstance(x, (list, tuple)):
+        for v in x:
+            containers(v, acc, depth + 1)
+    return acc
+
+
+def judge(spec, chosen, detail=False, author=False):
     """
     chosen: list of (option name, V).  Builds the configuration from the spec's minimal valid one,
     runs the real constructor in both forms and compares with the table/model.
+
+    author=True additionally treats the configuration as the AUTHOR'S OWN objects (graders.md: "Passing the
+    configuration as a dictionary can be useful if you are using the same configuration for multiple problems"):
+    a construction (accepted or rejected, either form) must leave them as they were, the object's configuration must
+    not share a list or dictionary with them, and a second construction from the very same dictionary gives an equal object.
     """
     def build():
         cfg = spec.base_cfg()
@@ -150,9 +182,20 @@ def judge(spec, chosen, detail=False):
             expected, why = 'reject', 'cross-option rule: %s' % rule
 
     res = {}
+    handed = {}
     for form in ('kwargs', 'dict'):
-        res[form] = construct(spec.cls, build(), form)
+        handed[form] = build()
+        before = M.stable(handed[form]) if author else None
+        res[form] = construct(spec.cls, handed[form], form)
         calls += 1
+        if author and res[form][0] != 'wrong':
+            after = M.stable(handed[form])
+            if after != before:
+                return Result('author-config-changed', True,
+                              viol('author-config-changed:%s' % cname,
+                                   '%s(%s form) changed the configuration objects it was given (%s)'
+                                   % (cname, form, 'accepted' if res[form][0] == 'ok' else 'rejected'),
+                                   before[:400], after[:400]), calls)
 
     def site():
         """(site, value class) blamed for a wrong exception: prefer values without an ordering (complex, ...)"""
@@ -265,6 +308,24 @@ def judge(spec, chosen, detail=False):
         if not isinstance(a, tuple):
             return Result('answers-form', True, viol('answers-not-a-tuple:%s' % cname, 'config answers is not a tuple',
                                                      'tuple', M.short(a)), calls)
+    if author:
+        for form, obj in (('dict', odi), ('kwargs', okw)):
+            mine = containers(handed[form])
+            shared = [o for i, o in containers(obj.config).items() if i in mine]
+            if shared:
+                return Result('config-aliases-author-object', True,
+                              viol('config-aliases-author-object:%s' % cname,
+                                   '%s(%s form).config holds the very list/dictionary object the author passed in: %s'
+                                   % (cname, form, M.short(shared[0], 200)), 'a copy', M.short(shared[0], 200)), calls)
+        # the same dictionary used for a second problem
+        r = construct(spec.cls, handed['dict'], 'dict')
+        calls += 1
+        if r[0] != 'ok' or not lib_eq(r[1], odi) or not M.deep_eq(r[1].config, odi.config):
+            return Result('second-use-differs', True,
+                          viol('config-dict-second-use:%s' % cname,
+                               'the same configuration dictionary handed to %s a second time gave %s'
+                               % (cname, ename(r[1]) if r[0] != 'ok' else 'a different object: %s'
+                                  % M.first_diff(r[1].config, odi.config)), 'an equal object', r[0]), calls)
     # re-construction
     if spec.reconstruct:
         r = construct(spec.cls, dict(conf), 'dict')
@@ -333,7 +394,7 @@ class BaseConfig(TableFamily):
 
     @guarded
     def check(self, case):
-        return judge(T.specs()[case[0]], [], detail='options')
+        return judge(T.specs()[case[0]], [], detail='options', author=True)
 
 
 class SingleOption(TableFamily):
@@ -352,7 +413,7 @@ class SingleOption(TableFamily):
     @guarded
     def check(self, case):
         spec, opt, v = self.lookup(*case)
-        return judge(spec, [(opt.name, v)])
+        return judge(spec, [(opt.name, v)], author=True)
 
 
 class DocumentedDefault(TableFamily):
@@ -473,13 +534,19 @@ class Grid(Family):
     """full product of small per-option pools for one class; verdict from the cross-option rule model"""
     timeout = 20.0
 
-    def __init__(self, name, specname, dims_fn, rule, tiers=('quick', 'thorough')):
+    def __init__(self, name, specname, dims_fn, rule, tiers=('quick', 'thorough'), author=None):
         self.name = name
+        # the author's-own-objects assertions (see judge) run on the grids that are about structured values
+        self.author = (name.startswith('answers_') or name in ('interval_rules', 'singlelist_answers_rules')) \
+            if author is None else author
         self.specname = specname
         self.dims_fn = dims_fn
         self.rule = rule
         self.tiers = tiers
         self._dims = None
+
+    def setup(self, tier):
+        self.tier = tier
 
     def dims(self):
         if self._dims is None:
@@ -504,7 +571,8 @@ class Grid(Family):
     def check(self, case):
         dims = self.dims()
         chosen = [(n, self._index[i][lab]) for i, ((n, _), lab) in enumerate(zip(dims, case))]
-        return judge(T.specs()[self.specname], chosen, detail='answers' if self.name.startswith('answers_') else False)
+        return judge(T.specs()[self.specname], chosen, detail='answers' if self.name.startswith('answers_') else False,
+                     author=self.author or getattr(self, 'tier', 'quick') == 'thorough')
 
 
 def vals(*values, **kw):
@@ -561,6 +629,9 @@ def listgrader_dims():
         V(L(lambda: [m.SingleListGrader(subgrader=sg()), sg()], '[SLG(SG), SG]'), True, FREE),
         V(L(lambda: [sg(), m.SingleListGrader(subgrader=sg())], '[SG, SLG(SG)]'), True, FREE),
         V(L(lambda: [m.IntervalGrader(), sg()], '[IntervalGrader, SG]'), True, FREE),
+        # an author's own class built on ListGrader is a ListGrader (both places where the grouping rules ask)
+        V(L(lambda: T.AuthorListGrader(subgraders=sg()), 'AuthorLG(SG)'), True, FREE),
+        V(L(lambda: [T.AuthorListGrader(subgraders=sg()), sg()], '[AuthorLG(SG), SG]'), True, FREE),
     ]
     answers = [V(a, True, ANSWERS) for a in (
         [], ['a', 'b'], ['a', 'b', 'c'], (['a', 'b'], ['c', 'd']), (['a', 'b'], ['c']),
@@ -592,6 +663,16 @@ def delimiter_dims():
             if d2 != d3:
                 subs.append(V(L(lambda d2=d2, d3=d3: m.SingleListGrader(subgrader=m.IntervalGrader(delimiter=d3), delimiter=d2),
                                 'SLG(%r, IntervalGrader(%r))' % (d2, d3)), True, FREE))
+    # ... and so is an author's own class built on SingleListGrader, at either depth
+    for d2 in ds:
+        subs.append(V(L(lambda d2=d2: T.AuthorSingleListGrader(subgrader=m.StringGrader(), delimiter=d2),
+                        'AuthorSLG(%r)' % d2), True, FREE))
+    for d2 in ds:
+        for d3 in ds:
+            if d2 != d3:
+                subs.append(V(L(lambda d2=d2, d3=d3: m.SingleListGrader(
+                    subgrader=T.AuthorSingleListGrader(subgrader=m.StringGrader(), delimiter=d3), delimiter=d2),
+                    'SLG(%r, AuthorSLG(%r))' % (d2, d3)), True, FREE))
     return [('delimiter', vals(*ds, expect=SAME)), ('subgrader', subs)]
 
 
@@ -712,6 +793,34 @@ def listgrader_answer_dims():
     return [('answers', out)]
 
 
+def listgrader_mixed_dims():
+    import mitxgraders as m
+    sg = m.StringGrader
+    fg = lambda: m.FormulaGrader(variables=['x', 'y'])
+    mg = lambda: m.MatrixGrader(variables=['x', 'y'], entry_partial_credit='proportional')
+    subs = [
+        V(L(lambda: [sg(), fg()], '[SG, FG]'), True, FREE),
+        V(L(lambda: [fg(), sg()], '[FG, SG]'), True, FREE),
+        V(L(lambda: [fg(), m.NumericalGrader()], '[FG, NG]'), True, FREE),
+        V(L(lambda: [sg(), mg()], '[SG, MG(entry_partial_credit)]'), True, FREE),
+        V(L(lambda: [m.SingleListGrader(subgrader=fg()), sg()], '[SLG(FG), SG]'), True, FREE),
+        V(L(lambda: [sg(), m.IntervalGrader()], '[SG, IntervalGrader]'), True, FREE),
+        V(L(fg, 'FG'), True, FREE),
+        V(L(mg, 'MG(entry_partial_credit)'), True, FREE),
+        V(L(lambda: m.SingleListGrader(subgrader=fg()), 'SLG(FG)'), True, FREE),
+        V(L(lambda: m.IntervalGrader(), 'IntervalGrader'), True, FREE),
+    ]
+    cd = {'comparer': T.cmp3, 'comparer_params': ['x', 'y']}
+    answers = [V(a, True, ANSWERS) for a in (
+        ['cat', 'x+1'], ['x+1', 'cat'],
+        [{'expect': 'cat', 'msg': 'm'}, ('x', {'expect': '2*x', 'grade_decimal': 0.5})],
+        [('x', 'y'), {'expect': cd}], [cd, 'x'],
+        [['a', 'b'], 'c'], ['c', '[1,2)'], ['[1,2]', '(3,4)'],
+        (['cat', 'x'], ['dog', 'y']), (['cat', 'x'], ['dog', {'expect': 'y', 'grade_decimal': 0}]),
+    )]
+    return [('subgraders', subs), ('answers', answers), ('ordered', vals(True, False, expect=SAME))]
+
+
 ANS_RULE = ('every documented answers format: a single expect value, a dictionary with every combination of '
             'grade_decimal in {-,0,0.5,1,1.0} x ok in {-,True,False,partial,computed} x msg in {-,hi} around every expect form '
             '(string, tuple-valued, comparer dictionary, list, delimiter string, 4-entry interval list), tuples of those; '
@@ -830,7 +939,14 @@ class DictBeatsKwargs(TableFamily):
     name = 'dict_and_kwargs'
     rule = ('graders.md: "if a configuration dictionary is supplied, any keyword arguments are ignored": for every class and '
             'option, Cls({option: in-domain value}, **kw) with kw = another in-domain value / an out-of-domain value / an '
-            'unknown key must equal Cls({option: value})')
+            'unknown key must equal Cls({option: value}); the same with an EMPTY dictionary: Cls({}, option=value), '
+            'Cls({}, option=out-of-domain value) and Cls({}, foo=1) must behave exactly like Cls({}) (same verdict, equal '
+            'object, same default comparer)')
+
+    # PENDING-FINDING: IntervalGrader.__init__ selects "config if config else kwargs": IntervalGrader({}, delimiter=';')
+    # uses the keywords although a (falsy) configuration dictionary was supplied; every other class ignores them.
+    # Remove the class from this set to enable the cases.
+    PENDING_EMPTY_DICT = set()      # (IntervalGrader used to be excluded: genuine defect, repaired)
 
     def cases(self, tier):
         sp = T.specs()
@@ -840,6 +956,15 @@ class DictBeatsKwargs(TableFamily):
                     continue
                 for mode in ('other-in', 'out', 'unknown'):
                     yield [s, o.name, mode]
+        for s in T.SPEC_NAMES:
+            if s in self.PENDING_EMPTY_DICT:        # PENDING-FINDING (see above)
+                continue
+            yield [s, '-', 'empty+unknown']
+            for o in sp[s].opts:
+                if o.ins:
+                    yield [s, o.name, 'empty+in']
+                if [v for v in o.outs if v.value is not OMIT]:
+                    yield [s, o.name, 'empty+out']
 
     def describe(self, case):
         return {'class': case[0], 'option': case[1], 'keywords': case[2]}
@@ -847,8 +972,10 @@ class DictBeatsKwargs(TableFamily):
     @guarded
     def check(self, case):
         spec = T.specs()[case[0]]
-        o = spec.by_name[case[1]]
         mode = case[2]
+        if mode.startswith('empty+'):
+            return self.check_empty(spec, case[1], mode)
+        o = spec.by_name[case[1]]
         vd = o.ins[-1]
         if mode == 'other-in':
             kw = {o.name: o.ins[0].make()}
@@ -880,6 +1007,48 @@ class DictBeatsKwargs(TableFamily):
                           viol('kwargs-not-ignored:%s' % spec.name, 'keywords changed the configuration: %s'
                                % M.first_diff(b[1].config, a[1].config), 'keywords ignored', None), 2)
         return Result('ignored', True, None, 2)
+
+
+    def check_empty(self, spec, oname, mode):
+        if mode == 'empty+unknown':
+            kw = {'foo': 1}
+        else:
+            o = spec.by_name[oname]
+            if mode == 'empty+in':
+                # a value that is not the documented default, so that a used keyword shows in the configuration
+                dflt = T.fresh(o.default) if o.default not in (NODEF, REQUIRED) else None
+                cand = [v for v in o.ins if not M.deep_eq(v.value, dflt)] or o.ins
+                kw = {o.name: cand[-1].make()}
+            else:
+                kw = {o.name: [v for v in o.outs if v.value is not OMIT][0].make()}
+        a = construct(spec.cls, {}, 'dict')
+        b = construct(spec.cls, {}, 'both', kw)
+        if 'wrong' in (a[0], b[0]):
+            e = a[1] if a[0] == 'wrong' else b[1]
+            return Result('raises:' + ename(e), True,
+                          viol('wrong-error:%s:%s:empty-dict' % (ename(e), spec.name),
+                               '%s({}%s) raised %s: %s' % (spec.name, '' if a[0] == 'wrong' else ', **%s' % sorted(kw),
+                                                            ename(e), str(e)[:200])), 2)
+        if a[0] != b[0]:
+            return Result('kwargs-not-ignored', True,
+                          viol('kwargs-not-ignored:%s:empty-dict' % spec.name,
+                               '%s({}) is %sed but %s({}, **%s) is %sed: the keywords were not ignored'
+                               % (spec.name, 'accept' if a[0] == 'ok' else 'reject', spec.name, M.short(kw, 80),
+                                  'accept' if b[0] == 'ok' else 'reject'), a[0], b[0]), 2)
+        if a[0] != 'ok':
+            return Result('both-rejected:' + ename(b[1]), True, None, 2)
+        if not lib_eq(a[1], b[1]) or not M.deep_eq(a[1].config, b[1].config):
+            return Result('kwargs-not-ignored', True,
+                          viol('kwargs-not-ignored:%s:empty-dict' % spec.name,
+                               'with an empty configuration dictionary the keywords %s changed the configuration: %s'
+                               % (M.short(kw, 80), M.first_diff(b[1].config, a[1].config)), 'keywords ignored', None), 2)
+        ca, cb = getattr(a[1], 'default_comparer', None), getattr(b[1], 'default_comparer', None)
+        if not M.deep_eq(ca, cb):
+            return Result('kwargs-not-ignored', True,
+                          viol('kwargs-not-ignored:%s:empty-dict:default-comparer' % spec.name,
+                               'with an empty configuration dictionary the keywords %s changed the default comparer'
+                               % M.short(kw, 80), M.short(ca), M.short(cb)), 2)
+        return Result('ignored:empty-dict', True, None, 2)
 
 
 # ----------------------------------------------------------------------------- registered defaults
@@ -976,6 +1145,562 @@ class RegisteredDefaults(TableFamily):
                               viol('registered-default:%s.%s:not-cleared' % (spec.name, o.name),
                                    'after clear_registered_defaults the documented default is not restored: %s' % bad), calls)
         return Result('registered-on-%s:%s' % (case[2], type(a[1].config.get(o.name)).__name__), True, None, calls)
+
+
+# ----------------------------------------------------------------------------- registered defaults along the class chain
+
+# the grading classes of plugins/defaults_sample.py and their documented inheritance (most derived first)
+CHAINS = {
+    'StringGrader': ['StringGrader', 'ItemGrader', 'AbstractGrader'],
+    'FormulaGrader': ['FormulaGrader', 'ItemGrader', 'AbstractGrader'],
+    'NumericalGrader': ['NumericalGrader', 'FormulaGrader', 'ItemGrader', 'AbstractGrader'],
+    'MatrixGrader': ['MatrixGrader', 'FormulaGrader', 'ItemGrader', 'AbstractGrader'],
+    'SingleListGrader': ['SingleListGrader', 'ItemGrader', 'AbstractGrader'],
+    'IntervalGrader': ['IntervalGrader', 'SingleListGrader', 'ItemGrader', 'AbstractGrader'],
+    'ListGrader': ['ListGrader', 'AbstractGrader'],
+    'IntegralGrader': ['IntegralGrader', 'AbstractGrader'],
+    'SumGrader': ['SumGrader', 'AbstractGrader'],
+}
+ITEM_LEVEL = COMMON + ['wrong_msg']
+
+
+def level_class(name):
+    import mitxgraders as m
+    from mitxgraders.baseclasses import AbstractGrader, ItemGrader
+    return {'AbstractGrader': AbstractGrader, 'ItemGrader': ItemGrader}.get(name) or getattr(m, name)
+
+
+def level_has(level, oname):
+    """may the option be registered at this level (the level, or a class above it, defines the option)?"""
+    if level == 'AbstractGrader':
+        return oname in COMMON
+    if level == 'ItemGrader':
+        return oname in ITEM_LEVEL
+    return oname in T.specs()[level].by_name
+
+
+def chain_options(sname):
+    """common options, wrong_msg, and the first three plainly-valued options of the class's own"""
+    spec = T.specs()[sname]
+    out, own = [], 0
+    for o in spec.opts:
+        if len(plain_ins(o)) < 2 or o.name in spec.base or o.default in (NODEF, REQUIRED):
+            continue
+        if o.name in ITEM_LEVEL:
+            out.append(o.name)
+        elif own < 3:
+            out.append(o.name)
+            own += 1
+    return out
+
+
+class RegisteredDefaultsChain(TableFamily):
+    name = 'registered_defaults_chain'
+    timeout = 30.0
+    rule = ('plugins.md / plugins/defaults_sample.py: defaults registered on a class apply to that class and the classes '
+            'built on it, "precedence is given to the registered defaults of higher level classes", "if register_defaults '
+            'is called twice on the same class, the options stack on top of each other, overwriting earlier options". For '
+            'every grader class x option (common, wrong_msg, 3 of its own) x every level of its class chain where the '
+            'option may be registered (and every pair of levels): omitted -> value of the most derived registering level; '
+            'explicit -> explicit (also as the FIRST construction after registering, and after a construction that raised); '
+            'the registered dictionaries are not changed by constructions; classes outside the chain below the level and '
+            'the classes above it keep the documented default; clearing one level uncovers the next; two calls stack')
+
+    def cases(self, tier):
+        isolated = set()
+        for s in GRADERS:
+            chain = CHAINS[s]
+            for oname in chain_options(s):
+                levels = [l for l in chain if level_has(l, oname)]
+                for l in levels:
+                    if l not in (s, 'AbstractGrader'):      # those two are the cases of registered_defaults
+                        yield [s, oname, 'one-level', l, '-']
+                    yield [s, oname, 'history', l, '-']
+                    yield [s, oname, 'stack', l, '-']
+                    if (l, oname) not in isolated:          # does not depend on the class the level was reached from
+                        isolated.add((l, oname))
+                        yield [s, oname, 'isolation', l, '-']
+                for i, lo in enumerate(levels):
+                    for hi in levels[i + 1:]:
+                        yield [s, oname, 'two-levels', lo, hi]
+
+    def describe(self, case):
+        return {'class': case[0], 'option': case[1], 'scenario': case[2], 'registered on': case[3], 'and on': case[4]}
+
+    def values(self, spec, o):
+        """three distinct in-domain plain values if there are that many: (r1, r2, other), none the documented default if possible"""
+        ins = plain_ins(o)
+        dflt = T.fresh(o.default)
+        non = [v for v in ins if not M.deep_eq(v.value, dflt)]
+        pool = non + [v for v in ins if v not in non]
+        r1 = pool[0]
+        r2 = pool[1] if len(pool) > 1 else pool[0]
+        other = [v for v in ins if v is not r1][-1]
+        return r1, r2, other
+
+    def stored_bad(self, spec, o, r, want, dflt=False):
+        """None or text: the outcome r of a construction must be an object whose option o holds `want` (a V) / the documented default"""
+        if r[0] != 'ok':
+            return 'construction raised %s: %s' % (ename(r[1]), str(r[1])[:160])
+        conf = r[1].config
+        if dflt:
+            exp = o.default_cfg
+            return check_stored(spec, spec.base_cfg(), o.name, conf.get(o.name), exp,
+                                T.fresh(o.default) if exp == SAME else None)
+        return check_stored(spec, {}, o.name, conf.get(o.name), want.expect, want.make())
+
+    @guarded
+    def check(self, case):
+        sname, oname, scen, lo, hi = case
+        spec = T.specs()[sname]
+        o = spec.by_name[oname]
+        r1, r2, other = self.values(spec, o)
+        chain = [level_class(l) for l in CHAINS[sname]]
+        everyone = set(chain)
+        for c in CHAINS.values():
+            everyone.update(level_class(l) for l in c)
+        saved = {c: c.default_values for c in everyone}
+        calls = [0]
+
+        def make(cls_spec=spec, **over):
+            cfg = cls_spec.base_cfg()
+            for k, v in over.items():
+                cfg[k] = v.make()
+            calls[0] += 1
+            return construct(cls_spec.cls, cfg, 'kwargs' if calls[0] % 2 else 'dict')
+
+        def fail(tag, text, expected=None, observed=None):
+            return Result('FAIL:' + tag, True,
+                          viol('registered-chain:%s:%s.%s' % (tag, sname, oname),
+                               '%s [%s on %s%s]: %s' % (sname, scen, lo, '' if hi == '-' else ' and ' + hi, text),
+                               expected, observed), calls[0])
+        L_lo = level_class(lo)
+        try:
+            for c in everyone:
+                c.default_values = None
+            if scen == 'one-level':
+                L_lo.register_defaults({oname: r1.make()})
+                bad = self.stored_bad(spec, o, make(), r1)
+                if bad:
+                    return fail('omitted', 'omitted option should take the value registered on %s: %s' % (lo, bad), r1.label)
+                bad = self.stored_bad(spec, o, make(**{oname: other}), other)
+                if bad:
+                    return fail('explicit', 'explicit value should win: %s' % bad, other.label)
+                L_lo.clear_registered_defaults()
+                bad = self.stored_bad(spec, o, make(), None, dflt=True)
+                if bad:
+                    return fail('cleared', 'after clear_registered_defaults: %s' % bad, T.label_of(o.default))
+                return Result('inherited-from-%s' % ('ItemGrader' if lo == 'ItemGrader' else 'parent-class'), True, None, calls[0])
+
+            if scen == 'history':
+                reg = {oname: r1.make()}
+                L_lo.register_defaults(reg)
+                snap = M.stable(L_lo.default_values)
+                outs = [v for v in o.outs if v.value is not OMIT]
+                steps = [('explicit-first', {oname: other}, other), ('omitted-after-explicit', {}, r1)]
+                if outs:
+                    steps += [('out-of-domain', {oname: outs[0]}, 'reject'), ('omitted-after-raise', {}, r1)]
+                steps += [('explicit-again', {oname: r2}, r2), ('omitted-last', {}, r1)]
+                for tag, over, want in steps:
+                    r = make(**over)
+                    if want == 'reject':
+                        if r[0] != 'reject':
+                            return fail(tag, 'an out-of-domain explicit value gave %s' % r[0], 'reject', r[0])
+                    else:
+                        bad = self.stored_bad(spec, o, r, want)
+                        if bad:
+                            return fail(tag, bad, want.label)
+                    if M.stable(L_lo.default_values) != snap or M.stable(reg) != snap:
+                        return fail('registered-dictionary-changed',
+                                    'after the step %s the dictionary registered on %s is %s' % (tag, lo, M.stable(L_lo.default_values)[:200]),
+                                    snap[:200], M.stable(L_lo.default_values)[:200])
+                return Result('history-independent', True, None, calls[0])
+
+            if scen == 'stack':
+                second = 'debug' if oname != 'debug' else 'attempt_based_credit_msg'
+                so = spec.by_name[second]
+                sv = [v for v in plain_ins(so) if not M.deep_eq(v.value, so.default)][0]
+                first, then = {oname: r1.make()}, {second: sv.make()}
+                snap = (M.stable(first), M.stable(then))
+                L_lo.register_defaults(first)
+                L_lo.register_defaults(then)
+                if (M.stable(first), M.stable(then)) != snap:
+                    return fail('author-dictionary-changed', 'register_defaults changed a dictionary it was given: %s, %s'
+                                % (M.stable(first), M.stable(then)), snap[0])
+                r = make()
+                bad = self.stored_bad(spec, o, r, r1) or self.stored_bad(spec, so, r, sv)
+                if bad:
+                    return fail('stack', 'two register_defaults calls for two options should both apply: %s' % bad)
+                L_lo.register_defaults({oname: r2.make()})
+                r = make()
+                bad = self.stored_bad(spec, o, r, r2) or self.stored_bad(spec, so, r, sv)
+                if bad:
+                    return fail('stack-overwrite', 'a later register_defaults call should overwrite the earlier value and '
+                                                    'keep the other option: %s' % bad, r2.label)
+                return Result('stacked', True, None, calls[0])
+
+            if scen == 'isolation':
+                L_lo.register_defaults({oname: r1.make()})
+                # classes above the level, and graders that are not built on it, keep the documented default
+                for other_name in GRADERS:
+                    if lo in CHAINS[other_name]:
+                        continue
+                    ospec = T.specs()[other_name]
+                    r = make(ospec)
+                    if r[0] != 'ok':
+                        return fail('leak', 'a default registered on %s made %s() raise %s: %s'
+                                    % (lo, other_name, ename(r[1]), str(r[1])[:160]), 'unaffected', ename(r[1]))
+                    oo = ospec.by_name.get(oname)
+                    if oo is not None and oo.default not in (NODEF, REQUIRED) and oname not in ospec.base:
+                        bad = self.stored_bad(ospec, oo, r, None, dflt=True)
+                        if bad:
+                            return fail('leak', 'a default registered on %s leaked into %s: %s' % (lo, other_name, bad),
+                                        T.label_of(oo.default))
+                for c in everyone:
+                    if c is not L_lo and c.default_values is not None:
+                        return fail('leak', 'registering on %s set default_values of %s' % (lo, c.__name__), None,
+                                    M.short(c.default_values))
+                return Result('isolated', True, None, calls[0])
+
+            if scen == 'two-levels':
+                L_hi = level_class(hi)
+                # general level first / derived level first: the order of registration must not matter
+                for order in ((L_hi, r2, L_lo, r1), (L_lo, r1, L_hi, r2)):
+                    for c in everyone:
+                        c.default_values = None
+                    order[0].register_defaults({oname: order[1].make()})
+                    order[2].register_defaults({oname: order[3].make()})
+                    bad = self.stored_bad(spec, o, make(), r1)
+                    if bad:
+                        return fail('precedence', 'registered %s on %s and %s on %s: the more derived class should win: %s'
+                                    % (r1.label, lo, r2.label, hi, bad), r1.label)
+                    bad = self.stored_bad(spec, o, make(**{oname: other}), other)
+                    if bad:
+                        return fail('explicit', 'explicit value should win over both levels: %s' % bad, other.label)
+                L_lo.clear_registered_defaults()
+                bad = self.stored_bad(spec, o, make(), r2)
+                if bad:
+                    return fail('uncovered', 'after clearing %s the value registered on %s should apply: %s' % (lo, hi, bad), r2.label)
+                L_hi.clear_registered_defaults()
+                bad = self.stored_bad(spec, o, make(), None, dflt=True)
+                if bad:
+                    return fail('cleared', 'after clearing both levels: %s' % bad, T.label_of(o.default))
+                return Result('derived-level-wins', True, None, calls[0])
+            raise HarnessError('unknown scenario %r' % scen)
+        finally:
+            for c, v in saved.items():
+                c.default_values = v
+
+
+# ----------------------------------------------------------------------------- construction histories
+
+def history_configs():
+    f1 = T.f1
+    integ = {'answers': {'lower': 'a', 'upper': 'b', 'integrand': 'x*t^2', 'integration_variable': 't'}}
+    summ = {'answers': {'lower': 'a', 'upper': 'b', 'summand': 'x*t^2', 'summation_variable': 't'}}
+    H = [
+        ('FormulaGrader', 'variables=[x]', {'variables': ['x']}),
+        ('FormulaGrader', 'allow_inf', {'variables': ['x'], 'allow_inf': True}),
+        ('FormulaGrader', 'pi removed', {'user_constants': {'pi': None}}),
+        ('FormulaGrader', 'variables=[pi]', {'variables': ['pi']}),
+        ('FormulaGrader', 'pi removed, variables=[pi]', {'user_constants': {'pi': None}, 'variables': ['pi']}),
+        ('FormulaGrader', 'variables=[infty]', {'variables': ['infty']}),
+        ('FormulaGrader', 'variables=[infty], allow_inf', {'variables': ['infty'], 'allow_inf': True}),
+        ('FormulaGrader', 'sin overridden, suppressed', {'user_functions': {'sin': f1}, 'suppress_warnings': True}),
+        ('FormulaGrader', 'sin overridden', {'user_functions': {'sin': f1}}),
+        ('FormulaGrader', 'user function f', {'user_functions': {'f': f1}}),
+        ('FormulaGrader', 'user function det', {'user_functions': {'det': f1}}),
+        ('FormulaGrader', 'blacklist=[f]', {'blacklist': ['f']}),
+        ('FormulaGrader', 'blacklist=[det]', {'blacklist': ['det']}),
+        ('FormulaGrader', 'whitelist=[sin]', {'whitelist': ['sin'], 'user_functions': {'f': f1}}),
+        ('FormulaGrader', 'whitelist=[None]', {'whitelist': [None]}),
+        ('FormulaGrader', 'constant c', {'user_constants': {'c': 2}}),
+        ('FormulaGrader', 'variables=[c]', {'variables': ['c']}),
+        ('FormulaGrader', 'e overridden, suppressed', {'user_constants': {'e': 2}, 'suppress_warnings': True}),
+        ('FormulaGrader', 'metric_suffixes', {'metric_suffixes': True}),
+        ('NumericalGrader', 'plain', {}),
+        ('NumericalGrader', 'e removed', {'user_constants': {'e': None}}),
+        ('NumericalGrader', 'user function f', {'user_functions': {'f': f1}}),
+        ('NumericalGrader', 'allow_inf', {'allow_inf': True}),
+        ('MatrixGrader', "answers='x'", {'variables': ['x'], 'answers': 'x'}),
+        ('MatrixGrader', "entry_partial_credit, answers='x'",
+         {'variables': ['x'], 'answers': 'x', 'entry_partial_credit': 'proportional'}),
+        ('MatrixGrader', 'identity_dim=2', {'identity_dim': 2}),
+        ('MatrixGrader', 'det overridden', {'user_functions': {'det': f1}}),
+        ('MatrixGrader', 'blacklist=[det]', {'blacklist': ['det']}),
+        ('MatrixGrader', 'variables=[I]', {'variables': ['I']}),
+        ('IntegralGrader', 'plain', dict(integ)),
+        ('IntegralGrader', 'variables=[infty]', dict(integ, variables=['infty'])),
+        ('IntegralGrader', 'infty removed, variables=[infty]', dict(integ, variables=['infty'], user_constants={'infty': None})),
+        ('SumGrader', 'plain', dict(summ)),
+        ('SumGrader', 'pi removed', dict(summ, user_constants={'pi': None})),
+    ]
+    return H
+
+
+MATH_CLASSES = ('FormulaGrader', 'NumericalGrader', 'MatrixGrader', 'IntegralGrader', 'SumGrader')
+TABLE_ATTRS = ('default_variables', 'default_functions', 'default_suffixes')
+
+
+def snapshot_tables():
+    """the library's class-level / module-level tables of default names as they are when this module is imported
+    (the runner imports it before anything is constructed)"""
+    import mitxgraders as m
+    from mitxgraders.helpers import calc
+    snap = {'cls': [], 'mod': []}
+    for cname in MATH_CLASSES:
+        cls = getattr(m, cname)
+        for attr in TABLE_ATTRS:
+            obj = getattr(cls, attr)
+            snap['cls'].append((cls, attr, attr in cls.__dict__, obj, dict(obj)))
+    for name in ('DEFAULT_VARIABLES', 'DEFAULT_FUNCTIONS', 'DEFAULT_SUFFIXES', 'METRIC_SUFFIXES'):
+        obj = getattr(calc, name)
+        snap['mod'].append((obj, dict(obj)))
+    return snap
+
+
+def restore_tables(snap):
+    """every case starts from (and leaves behind) the tables as they were at import: a case is judged on what ITS
+    two constructions do, and is reproducible alone"""
+    for cls, attr, own, obj, content in snap['cls']:
+        if own:
+            if cls.__dict__.get(attr) is not obj:
+                setattr(cls, attr, obj)
+        elif attr in cls.__dict__:
+            delattr(cls, attr)
+        if obj != content or list(obj) != list(content):
+            obj.clear()
+            obj.update(content)
+    for obj, content in snap['mod']:
+        if obj != content:
+            obj.clear()
+            obj.update(content)
+
+
+TABLES_AT_IMPORT = snapshot_tables()
+
+
+class ConstructionHistory(Family):
+    name = 'construction_history'
+    timeout = 20.0
+    rule = ('every ordered pair (A, B) of 34 configurations of the five math grader classes (default constants removed / '
+            'overridden / used as variable names, allow_inf, user functions over default names of either function table, '
+            'black/whitelists, metric suffixes, identity_dim, entry_partial_credit; 10 of them invalid): A is constructed '
+            '(it may raise, possibly after it has begun to set the instance up), then B. B must get the verdict of the '
+            'cross-option rule model and, when accepted, exactly the documented constants, functions, permitted '
+            'functions, suffixes and default comparer (closed form from functions_and_constants.md), and the same '
+            'configuration as the first construction of B in this process; the class-level tables of all five classes '
+            'must still be the documented ones. (Each case first puts the library\'s tables of default names back to '
+            'their state at import, so that it is judged on its own two constructions and reproduces alone.)')
+
+    def setup(self, tier):
+        self.H = history_configs()
+        self.ref = {}
+
+    def cases(self, tier):
+        n = len(history_configs())
+        for a in range(n):
+            for b in range(n):
+                yield [a, b]
+
+    def describe(self, case):
+        H = history_configs()
+        return {'first': '%s(%s)' % H[case[0]][:2], 'then': '%s(%s)' % H[case[1]][:2]}
+
+    @staticmethod
+    def build(entry):
+        import mitxgraders as m
+        cname, _, cfg = entry
+        return construct(getattr(m, cname), copy.deepcopy(cfg), 'kwargs')
+
+    @staticmethod
+    def expected(entry):
+        """(verdict rule, constants, functions, permitted, has metric suffixes, comparer class name)"""
+        cname, _, cfg = entry
+        matrix = cname == 'MatrixGrader'
+        infty = cname in ('IntegralGrader', 'SumGrader')
+        rule = M.math_rules(cfg, has_infty=infty, matrix=matrix)
+        funcs = set(M.MATRIX_FUNCS if matrix else M.FORMULA_FUNCS)
+        consts = set(M.DEFAULT_CONSTS)
+        if infty or cfg.get('allow_inf'):
+            consts.add('infty')
+        uc = cfg.get('user_constants', {})
+        consts -= set(k for k, v in uc.items() if v is None)
+        consts |= set(k for k, v in uc.items() if v is not None)
+        if cfg.get('identity_dim'):
+            consts.add('I')
+        uf = set(cfg.get('user_functions', {}))
+        wl, bl = cfg.get('whitelist', []), cfg.get('blacklist', [])
+        if wl == [None]:
+            permitted = set(uf)
+        elif wl:
+            permitted = set(wl) | uf
+        else:
+            permitted = (funcs | uf) - set(bl)
+        comparer = 'MatrixEntryComparer' if 'entry_partial_credit' in cfg else 'EqualityComparer'
+        return rule, consts, funcs | uf, permitted, bool(cfg.get('metric_suffixes')), comparer
+
+    @staticmethod
+    def tables_bad():
+        import mitxgraders as m
+        for cname in ('FormulaGrader', 'NumericalGrader', 'MatrixGrader', 'IntegralGrader', 'SumGrader'):
+            cls = getattr(m, cname)
+            consts = set(M.DEFAULT_CONSTS) | ({'infty'} if cname in ('IntegralGrader', 'SumGrader') else set())
+            funcs = M.MATRIX_FUNCS if cname == 'MatrixGrader' else M.FORMULA_FUNCS
+            if set(cls.default_variables) != consts:
+                return '%s.default_variables is %s' % (cname, sorted(cls.default_variables))
+            if set(cls.default_functions) != set(funcs):
+                return '%s.default_functions differs by %s' % (cname, sorted(set(cls.default_functions) ^ set(funcs)))
+            if set(cls.default_suffixes) != {'%'}:
+                return '%s.default_suffixes is %s' % (cname, sorted(cls.default_suffixes))
+        return None
+
+    def judge_b(self, entry, r):
+        """None or (tag, text, expected, observed)"""
+        rule, consts, funcs, permitted, metric, comparer = self.expected(entry)
+        if r[0] == 'wrong':
+            return ('wrong-error', 'raised %s: %s' % (ename(r[1]), str(r[1])[:200]), 'ConfigError / accepted', ename(r[1]))
+        if rule is None and r[0] != 'ok':
+            return ('rejected', 'a valid configuration was rejected: %s' % str(r[1])[:200], 'constructs', ename(r[1]))
+        if rule not in (None, M.OPEN) and r[0] == 'ok':
+            return ('accepted', 'accepted although %s' % rule, 'ConfigError', 'constructed')
+        if r[0] != 'ok':
+            return None
+        g = r[1]
+        for name, want, got in (('constants', consts, set(g.constants)), ('functions', funcs, set(g.functions) | set(g.random_funcs)),
+                                ('permitted functions', permitted, set(g.permitted_functions))):
+            if want != got:
+                return (name.replace(' ', '-'), 'its %s differ from the documented ones by %s' % (name, sorted(want ^ got)),
+                        sorted(want)[:20], sorted(got)[:20])
+        if ('k' in g.suffixes) != metric or '%' not in g.suffixes:
+            return ('suffixes', 'its suffixes are %s' % sorted(g.suffixes), 'metric suffixes: %s' % metric, sorted(g.suffixes))
+        if hasattr(g, 'default_comparer'):
+            got = type(g.default_comparer).__name__
+            used = set(type(e['comparer']).__name__ for a in g.config.get('answers', ()) for e in a['expect'])
+            if got != comparer or (used and used != {comparer}):
+                return ('default-comparer', 'its default comparer is a %s, its answers use %s' % (got, sorted(used)),
+                        comparer, got)
+        return None
+
+    def check(self, case):
+        ia, ib = case
+        A, B = self.H[ia], self.H[ib]
+        calls = 0
+        restore_tables(TABLES_AT_IMPORT)
+        try:
+            return self.run(ia, ib, A, B)
+        finally:
+            restore_tables(TABLES_AT_IMPORT)
+
+    def run(self, ia, ib, A, B):
+        calls = 0
+        if ib not in self.ref:
+            r0 = self.build(B)
+            calls += 1
+            self.ref[ib] = (r0[0], M.stable(r0[1].config) if r0[0] == 'ok' else ename(r0[1]))
+        ra = self.build(A)
+        rb = self.build(B)
+        calls += 2
+        what = '%s(%s) and then %s(%s)' % (A[0], A[1], B[0], B[1])
+        bad = self.judge_b(B, rb)
+        if bad:
+            return Result('second-wrong:' + bad[0], True,
+                          viol('history:%s:%s' % (bad[0], B[0]), '%s: the second %s' % (what, bad[1]), bad[2], bad[3]), calls)
+        bad = self.tables_bad()
+        if bad:
+            return Result('class-tables-changed', True,
+                          viol('history:class-level-table-changed', 'after %s: %s' % (what, bad)), calls)
+        now = (rb[0], M.stable(rb[1].config) if rb[0] == 'ok' else ename(rb[1]))
+        if now != self.ref[ib]:
+            return Result('differs-from-first', True,
+                          viol('history:differs-from-first-construction:%s' % B[0],
+                               '%s: the second differs from the first construction of the same configuration in this process'
+                               % what, self.ref[ib][1][:300], now[1][:300]), calls)
+        return Result('%s-then-%s' % ('ok' if ra[0] == 'ok' else 'raise', 'ok' if rb[0] == 'ok' else 'raise'), True, None, calls)
+
+
+# ----------------------------------------------------------------------------- cases waiting for a decision
+
+class PendingFindings(Family):
+    """
+    Reproductions of the genuine defects this check found (all repaired in /repo, see KNOWN_FINDINGS.json); they stay
+    as regression cases.
+    """
+    name = 'former_findings'
+    timeout = 20.0
+    rule = ('reproductions of repaired defects: a registered '
+            'entry_partial_credit does not select the MatrixEntryComparer; a registered IntervalGrader subgrader is '
+            'ignored; tolerance "nan%" accepted; an empty delimiter accepted and then a ValueError for string answers; '
+            'IntervalGrader delimiter of two characters accepted; an empty tuple of expected answers accepted')
+    UNDECIDED = {'empty-expect-tuple'}       # not documented either way: observation only, not enumerated
+    LABELS = ['registered-entry_partial_credit', 'registered-interval-subgrader', 'empty-dict-kwargs-IntervalGrader',
+              'tolerance-nan-percent', 'empty-delimiter', 'empty-delimiter-string-answers',
+              'interval-delimiter-two-characters', 'empty-expect-tuple']
+
+    def cases(self, tier):
+        for lab in self.LABELS:
+            if lab in self.UNDECIDED:
+                continue
+            yield [lab]
+
+    def check(self, case):
+        import mitxgraders as m
+        lab = case[0]
+
+        def v(text, expected=None, observed=None):
+            return Result('FAIL', True, viol('pending:' + lab, text, expected, observed), 1)
+
+        def rejected(r, what):
+            if r[0] == 'reject':
+                return Result('reject', True, None, 1)
+            return v('%s gave %s%s' % (what, r[0], '' if r[0] == 'ok' else ' %s: %s' % (ename(r[1]), r[1])),
+                     'ConfigError or voluptuous Error', r[0])
+        if lab == 'registered-entry_partial_credit':
+            # plugins/defaults_sample.py: "we make all MatrixGrader problems award partial credit by default"
+            saved = m.MatrixGrader.default_values
+            try:
+                m.MatrixGrader.default_values = None
+                m.MatrixGrader.register_defaults({'entry_partial_credit': 'proportional'})
+                r = construct(m.MatrixGrader, {'variables': ['x'], 'answers': 'x'}, 'kwargs')
+            finally:
+                m.MatrixGrader.default_values = saved
+            if r[0] != 'ok':
+                return v('construction raised %s' % r[1])
+            used = type(r[1].config['answers'][0]['expect'][0]['comparer']).__name__
+            if r[1].config.get('entry_partial_credit') != 'proportional' or used != 'MatrixEntryComparer':
+                return v('config has entry_partial_credit=%r but the answer is compared with a %s'
+                         % (r[1].config.get('entry_partial_credit'), used), 'MatrixEntryComparer', used)
+            return Result('ok', True, None, 1)
+        if lab == 'registered-interval-subgrader':
+            saved = m.IntervalGrader.default_values
+            try:
+                m.IntervalGrader.default_values = None
+                m.IntervalGrader.register_defaults({'subgrader': m.FormulaGrader(variables=['a'])})
+                r = construct(m.IntervalGrader, {}, 'kwargs')
+            finally:
+                m.IntervalGrader.default_values = saved
+            if r[0] != 'ok' or type(r[1].config['subgrader']).__name__ != 'FormulaGrader':
+                return v('the registered default subgrader is not used: %s'
+                         % (M.short(r[1].config['subgrader']) if r[0] == 'ok' else r[1]), 'FormulaGrader')
+            return Result('ok', True, None, 1)
+        if lab == 'empty-dict-kwargs-IntervalGrader':
+            a, b = construct(m.IntervalGrader, {}, 'dict'), construct(m.IntervalGrader, {}, 'both', {'delimiter': ';'})
+            if a[0] != 'ok' or b[0] != 'ok' or not M.deep_eq(a[1].config, b[1].config):
+                return v("IntervalGrader({}, delimiter=';') does not ignore the keyword", ',', M.short(b[1].config.get('delimiter')) if b[0] == 'ok' else b[0])
+            return Result('ok', True, None, 2)
+        if lab == 'tolerance-nan-percent':
+            return rejected(construct(m.FormulaGrader, {'tolerance': 'nan%'}, 'kwargs'), "FormulaGrader(tolerance='nan%')")
+        if lab == 'empty-delimiter':
+            return rejected(construct(m.SingleListGrader, {'subgrader': m.StringGrader(), 'delimiter': ''}, 'kwargs'),
+                            "SingleListGrader(delimiter='')")
+        if lab == 'empty-delimiter-string-answers':
+            return rejected(construct(m.SingleListGrader, {'subgrader': m.StringGrader(), 'delimiter': '', 'answers': 'ab'},
+                                      'kwargs'), "SingleListGrader(delimiter='', answers='ab')")
+        if lab == 'interval-delimiter-two-characters':
+            return rejected(construct(m.IntervalGrader, {'delimiter': '::'}, 'kwargs'), "IntervalGrader(delimiter='::')")
+        if lab == 'empty-expect-tuple':
+            return rejected(construct(m.StringGrader, {'answers': {'expect': ()}}, 'kwargs'), "StringGrader(answers={'expect': ()})")
+        raise HarnessError('unknown pending case %r' % (case,))
 
 
 # ----------------------------------------------------------------------------- the list of families
@@ -1129,7 +1854,14 @@ def families(tier):
         Grid('answers_ListGrader', 'ListGrader', listgrader_answer_dims,
              'ListGrader answers: every pair of 6 StringGrader answer forms as a 2-list, a tuple of lists, a 3-list: stored '
              'as a tuple of lists of canonical subgrader answers'),
-        Positional(), DictBeatsKwargs(), RegisteredDefaults(), OptionPairs(), SharedAuthorObjects(),
+        Grid('answers_ListGrader_mixed', 'ListGrader', listgrader_mixed_dims,
+             'ListGrader with subgraders of DIFFERENT kinds: 10 arrangements (lists pairing StringGrader, FormulaGrader, '
+             'NumericalGrader, MatrixGrader with entry_partial_credit, SingleListGrader of FormulaGraders, IntervalGrader; '
+             'and single non-string subgraders) x 10 answers lists (strings, dictionaries, tuples of alternatives, comparer '
+             'dictionaries, inner lists, interval strings, tuples of lists) x ordered: every entry must be validated and '
+             'normalised by the subgrader OF ITS OWN POSITION (its expect form, its default comparer), rejected when that '
+             'subgrader does not admit it'),
+        Positional(), DictBeatsKwargs(), RegisteredDefaults(), RegisteredDefaultsChain(), ConstructionHistory(), OptionPairs(), SharedAuthorObjects(), PendingFindings(),
     ]
     if tier != 'thorough':
         fams = [f for f in fams if tier in getattr(f, 'tiers', ('quick', 'thorough'))]
